@@ -433,7 +433,28 @@ theorem irr_cmd (fuel : Nat) (ih : Irr fuel) :
   | tick c k =>
     simp only [execCmd]
     split <;> exact rel_finishSimple' _ e0 (by exact cond_of_stack rfl hc) _
-  | fundef name body => simp only [execCmd]; exact rel_finishSimple' _ e0 (by exact cond_of_stack rfl hc) _
+  | fundef name body =>
+    simp only [execCmd]
+    cases s.roFuncs.contains name <;> simp only [Bool.false_eq_true, ite_true, ite_false] <;>
+      exact rel_finishSimple' _ e0 (by exact cond_of_stack rfl hc) _
+  | setParams n => simp only [execCmd]; exact rel_finishSimple' _ e0 (by exact cond_of_stack rfl hc) _
+  | freeze name =>
+    simp only [execCmd]
+    cases lookupFn s.funcs name <;> exact rel_finishSimple' _ e0 (by exact cond_of_stack rfl hc) _
+  | forRo values =>
+    simp only [execCmd]
+    split
+    · exact rel_mk ⟨e0, rfl⟩
+    · rw [expansionError_cond s hc, expansionError_cond _ hc']
+      exact rel_mk ⟨e0, rfl⟩
+  | forPos body =>
+    simp only [execCmd]
+    split
+    · exact rel_mk ⟨e0, rfl⟩
+    · obtain ⟨s1, r, e1, hx, hy⟩ := rel_cases
+        (ih.for_ (s.push .loop) (({ s with errexit := e0 } : St).push .loop) s.params body ⟨e0, rfl⟩ (cond_push s _ hc))
+      rw [hx, hy]
+      exact rel_mk ⟨e1, rfl⟩
   | expErr =>
     simp only [execCmd]
     rw [expansionError_cond s hc, expansionError_cond _ hc']
@@ -448,7 +469,7 @@ theorem irr_cmd (fuel : Nat) (ih : Irr fuel) :
   | specialErr w st => simp only [execCmd]; exact rel_finishSimple' _ e0 (by exact cond_of_stack rfl hc) _
   | trapExit body => simp only [execCmd]; exact rel_finishSimple' _ e0 (by exact cond_of_stack rfl hc) _
   | group body => simp only [execCmd]; exact ih.list s _ body ⟨e0, rfl⟩ hc
-  | call name =>
+  | call name nargs =>
     simp only [execCmd, classify_errexit]
     cases hcl : classify s name with
     | specialColon => exact rel_finishSimple' _ e0 (by exact cond_of_stack rfl hc) _
@@ -457,11 +478,12 @@ theorem irr_cmd (fuel : Nat) (ih : Irr fuel) :
     | status n => exact rel_finishSimple' _ e0 (by exact cond_of_stack rfl hc) _
     | function body =>
       simp only
-      have b1 := (bal fuel).cmd s body
-      obtain ⟨s1, r, e1, hx, hy⟩ := rel_cases (ih.cmd s { s with errexit := e0 } body ⟨e0, rfl⟩ hc)
+      have b1 := (bal fuel).cmd { s with params := nargs } body
+      obtain ⟨s1, r, e1, hx, hy⟩ := rel_cases
+        (ih.cmd { s with params := nargs } { s with errexit := e0, params := nargs } body ⟨e0, rfl⟩ (cond_of_stack rfl hc))
       rw [hx] at b1
       rw [hx, hy]
-      have hc1 : Cond s1 := cond_of_stack b1 hc
+      have hc1 : Cond s1 := cond_of_stack b1 (cond_of_stack (t := { s with params := nargs }) rfl hc)
       cases r with
       | continue_ => exact rel_finishSimple' _ e1 (by exact cond_of_stack rfl hc1) _
       | outOfFuel => exact rel_finishSimple' _ e1 (by exact cond_of_stack rfl hc1) _
